@@ -22,6 +22,7 @@ THEOREMS = [
     "Mpc.C18_dec_total_GarblerSession",
     "Mpc.C18_dec_total_EvaluatorSession",
     "Mpc.C18_dec_canonical_Round3",
+    "Mpc.C18_dec_canonical_Round1_at_doc_len",
     "Mpc.C18_trailing_bytes_accepted_Round1",
     "Mpc.C18_trailing_bytes_accepted_GarblerSession",
     "Mpc.C18_trailing_bytes_accepted_EvaluatorSession",
